@@ -108,6 +108,7 @@ struct Options {
     bool keep_body = true;     // accumulate body bytes per transaction
     size_t max_body = 1 << 22;
     bool monitors = true;
+    bool wire_bound = false;   // C06: message length <= bytes the parser advanced since the end of the header block (asserted on c06x's generated exchanges only, see DESIGN 9.4 item 26)
     bool logs = false;         // keep log messages
     unsigned long long flag_mask = 0; // transaction flag bits hidden in dumps (e.g. HTP_MULTI_PACKET_HEAD for C03)
 };
@@ -160,6 +161,8 @@ private:
     struct TxM {
         int reqph = 0, resph = 0; int req_complete = 0, res_complete = 0, tx_complete = 0;
         long long reqbody = 0, resbody = 0; int req_eob = 0, res_eob = 0; int last_status = 0;
+        int once[6] = {0, 0, 0, 0, 0, 0}; // deliveries of the once-per-message callbacks: request start / line / headers, response start / line / headers
+        long long req_mark = -1, res_mark = -1, req_start = -1, res_start = -1; // stream positions (bytes really taken by the parser so far): start of the message, end of its header block
         int reqprog = 0, resprog = 0; int seen100 = 0;
         bool txreq_hook = false, txres_hook = false; // our per-transaction body hooks are registered (they fire before the config-level ones)
         bool req_body_nonok = false, res_body_nonok = false; // one of our body callbacks returned non-OK: the library may legitimately stop delivering (no end marker owed)
@@ -167,6 +170,8 @@ private:
     };
     std::string tsuffix(const TxM &m, unsigned mask) const;
     const Call &data_call(char kind, const char *d, size_t n, bool gap);
+    long long base_[2] = {0, 0}; // bytes consumed by earlier calls of the direction
+    long long pos(int dir) const { return base_[dir] + (long long)(dir ? connp_->out_current_read_offset : connp_->in_current_read_offset); }
     Call &begin_call(char kind, size_t len);
     void end_call(Call &c, int rc, size_t consumed);
     int serial_of(htp_tx_t *tx);
